@@ -588,10 +588,17 @@ func wrapCond(c stackage.Condition, form string) any {
 
 var opqStore = map[[2]int]any{}
 
+// opqUse: when a key was last asked for. Several keys may hold equal values (typed nil pointers carry no identity):
+// naming a value back prefers the key most recently used, i.e. the literal of the case at hand.
+var opqUse = map[[2]int]int{}
+var opqClock int
+
 func opqOf(cls, id int) any {
 	storeMu.Lock()
 	defer storeMu.Unlock()
 	k := [2]int{cls, id}
+	opqClock++
+	opqUse[k] = opqClock
 	if v, ok := opqStore[k]; ok {
 		return v
 	}
@@ -605,8 +612,15 @@ func opqOf(cls, id int) any {
 		v = struct{ A, b int }{id, id}
 	case 4:
 		v = map[string]int{"k": id}
-	case 5:
-		v = (*int)(nil)
+	case 5: // typed nil pointers; they carry no identity, so each id stands for its own pointer type
+		switch id {
+		case 2:
+			v = (*AStack)(nil)
+		case 3:
+			v = (*ACond)(nil)
+		default:
+			v = (*int)(nil)
+		}
 	case 6:
 		v = []int{id}
 	case 20: // C20: nil pointer to the native Stack type (satisfies stackage.Interface)
@@ -617,6 +631,12 @@ func opqOf(cls, id int) any {
 		v = &stackage.Stack{}
 	case 23: // non-nil pointer to a zero-valued native Condition
 		v = &stackage.Condition{}
+	case 24: // non-nil pointer to a nil *Stack
+		v = new(*stackage.Stack)
+	case 25: // non-nil pointer to a nil **int
+		v = new(**int)
+	case 26: // non-nil pointer to a nil *Condition
+		v = new(*stackage.Condition)
 	default:
 		v = &Opq{Cls: cls, ID: id}
 	}
@@ -700,6 +720,7 @@ func BuildStack(v V) stackage.Stack {
 	}
 	if v.Cfg.Opt&fRO != 0 {
 		s.SetReadOnly(true)
+		s.SetReadOnly(true) // asking twice is asking once
 	}
 	return s
 }
@@ -781,12 +802,23 @@ func Short(x any) string {
 	if c, ok := stackage.ConvertCondition(x); ok {
 		return "C#" + hx(c.Keyword())
 	}
-	for k, v := range opqStore {
-		if sameOpq(v, x) {
-			return fmt.Sprintf("o%d:%d", k[0], k[1])
-		}
+	if k, ok := opqKeyOf(x); ok {
+		return fmt.Sprintf("o%d:%d", k[0], k[1])
 	}
 	return "?"
+}
+
+// opqKeyOf: the (class, id) under which x is stored; if several stored values are equal to x, the key most recently
+// asked for (ties: the smallest) - deterministic whatever the map order; safe for concurrent use
+func opqKeyOf(x any) (key [2]int, found bool) {
+	storeMu.Lock()
+	defer storeMu.Unlock()
+	for k, v := range opqStore {
+		if sameOpq(v, x) && (!found || opqUse[k] > opqUse[key] || (opqUse[k] == opqUse[key] && (k[0] < key[0] || (k[0] == key[0] && k[1] < key[1])))) {
+			key, found = k, true
+		}
+	}
+	return
 }
 
 func sameOpq(a, b any) (same bool) {
